@@ -39,8 +39,8 @@ KS = [1, 20, 100]
 HS = [1, 5]
 TYPES = list(R.TYPES)
 
-OPS = [['iter'], ['iter', 2], ['clear'], ['store', 'xa'], ['store', 'xb', 1]]
-OPNAMES = ['iter()', 'iter(2)', 'clear()', 'store(xa)', 'store(xb,1)']
+OPS = [['iter'], ['iter', 2], ['clear'], ['store', 'xa'], ['store', 'xb', 1], ['store', 'xb', 0]]
+OPNAMES = ['iter()', 'iter(2)', 'clear()', 'store(xa)', 'store(xb,1)', 'store(xb,0)']
 
 
 def at(o, l, *b):
